@@ -87,7 +87,11 @@ def near_twin(draw, g):
         if k == 'pred':
             t = (k, draw(st.sampled_from([o for o in F.PREDS if o != s[1]]))) + s[2:]
         elif k == 'const':
-            t = ('const', draw(st.sampled_from([c for c in (0.0, 1.0, 2.0, 0.5, 3.0) if c != s[1]])))
+            if draw(st.booleans()):
+                # a constant that agrees with the original in its first seven significant digits
+                t = ('const', s[1] + max(abs(s[1]), 1.0) * 2.0 ** -24)
+            else:
+                t = ('const', draw(st.sampled_from([c for c in (0.0, 1.0, 2.0, 0.5, 3.0) if c != s[1]])))
         elif k == 'tun':
             alt = {'once': 'historically', 'historically': 'once', 'eventually': 'always', 'always': 'eventually'}
             choice = draw(st.integers(0, 2))
